@@ -266,6 +266,10 @@ class C13(Scenario):
             "interrupt_inside_comparison": 0,
         }
         sent_from = {}
+        sent_at = {}
+        got = set()
+        last_recv_sent = [-1] * nn
+        faults["reorder"] = {"configured": 0, "fired": 0}
         seen = set()
         for ev in history:
             si, node, op, r = ev
@@ -288,9 +292,21 @@ class C13(Scenario):
                 continue
             if name == "send" and "ok" in r:
                 sent_from[op[1]] = node
+                sent_at[op[1]] = si
             if name == "recv" and "ok" in r:
                 src = sent_from.get(op[2])
                 if src is not None:
+                    faults["delay"]["configured"] += 1
+                    if si - sent_at[op[2]] > 1:
+                        faults["delay"]["fired"] += 1
+                    faults["dup"]["configured"] += 1
+                    if (node, op[2]) in got:
+                        faults["dup"]["fired"] += 1
+                    got.add((node, op[2]))
+                    faults["reorder"]["configured"] += 1
+                    if sent_at[op[2]] < last_recv_sent[node]:
+                        faults["reorder"]["fired"] += 1
+                    last_recv_sent[node] = max(last_recv_sent[node], sent_at[op[2]])
                     probes["objects_received_from_other_process"] += 1
                     if plan["nodes"][src]["salt"] != plan["nodes"][node]["salt"]:
                         probes["received_under_other_salt"] += 1
